@@ -12,7 +12,8 @@ INFO = {
              'built-in stats / gzip / signed-cookie / GET-parameter middlewares (success with provides-middleware, other route / '
              'parameters / method, 404, 405, non-breaking fall-through, non-breaking error as final answer, uncaught exception, '
              'raised and returned HTTP errors, slash redirect, debug 500): request A runs k line-steps inside clastic / generated '
-             'code, B runs to completion, A finishes - for every k (complete for the listed pairs); (ii) Hypothesis-drawn '
+             'code, B runs to completion, A finishes - for every k (complete for the listed pairs), for some pairs also on an '
+             'application that has never served a request (fresh per schedule); (ii) Hypothesis-drawn '
              'multi-preemption schedules of 2-4 threads; (iii) free-running stress, 8 threads with a 1 microsecond switch '
              'interval. Non-trivial = a schedule with at least one preemption strictly inside the preempted request; distinct '
              '(pair, k) / schedules counted.'),
@@ -267,12 +268,19 @@ def run_pairs(spec, ctx):
     ctx.exhaustive = True
     for debug, (ka, kb) in spec['pairs']:
         app, alone = setup2() if debug == 'builtin' else setup(debug)
-        na = steps_alone(app, ka)
+        fresh = bool(spec.get('fresh'))
+        # fresh: every schedule runs on an application that has never served a request (what is built lazily on the first
+        # request is then built under preemption); the expected responses are those of the warmed-up twin
+        na = steps_alone(build(debug) if fresh else app, ka)
         stride = spec.get('debug_stride', 1) if debug else 1
         if stride > 1:
             ctx.exhaustive = False
         for k in range(0, na + 1, stride):
             case = {'pair': [ka, kb], 'k': k, 'debug': debug}
+            if fresh:
+                case['fresh'] = True
+                app = build(debug)
+                ctx.event('fresh-application-schedules')
             ctx.case(case)
             s = Sched(2)
             try:
@@ -443,6 +451,11 @@ def shards(tier, seed):
     if not q:
         for pr in [(False, p) for p in QUICK_PAIRS[:8]] + [('builtin', p) for p in PAIRS2[:4]]:
             out.append({'part': 'pairs2', 'pairs': [pr], 'stride1': 3, 'stride2': 5})
+    fresh_pairs = [('ok-a', '404'), ('ok-a', '405'), ('404', 'ok-b'), ('boom-z', '405'), ('redirect', '404'), ('ok-a', 'ok-b'), ('405', '404'), ('nb-final', 'post')]
+    if not q:
+        fresh_pairs += [(a, b) for a in ('ok-a', '404', 'int') for b in sorted(KINDS) if (a, b) not in fresh_pairs]
+    nf = 8 if q else 12        # building an application per schedule costs ~25 ms: one pair per shard in the quick tier
+    out += [{'part': 'pairs', 'pairs': [(False, p) for p in fresh_pairs[i::nf]], 'fresh': True} for i in range(nf)]
     out += [{'part': 'sched', 'n': 80 if q else 15000} for _ in range(3)]
     out += [{'part': 'stress', 'seconds': 3 if q else 120} for _ in range(2)]
     return out
@@ -463,6 +476,8 @@ def run_shard(spec, ctx):
 def replay(case, kind, ctx):
     if isinstance(case, dict) and 'pair' in case:
         app, alone = setup2() if case.get('debug') == 'builtin' else setup(case.get('debug', False))
+        if case.get('fresh'):
+            app = build(case.get('debug', False))
         ka, kb = case['pair']
         s = Sched(2)
         sched_ = [(0, case['k']), (1, 1 << 60)] if 'k2' not in case else [(0, case['k']), (1, case['k2']), (0, 1 << 60), (1, 1 << 60)]
